@@ -264,6 +264,7 @@ def main():
                     ctasks.append(('MatchingDecoder', cls, (L, L + 1), tier, seed))
             ctasks.append(('UnionFindDecoder', 'Toric2DCode', (L, L), tier, seed))
         ctasks += [('MatchingDecoder@0.7', cls, (3, 3), tier, seed) for cls in ('Toric2DCode', 'Planar2DCode', 'RotatedPlanar2DCode')]
+        ctasks += [('UnionFindDecoder~clustered#%d' % k_, 'Toric2DCode', (9, 9), tier, seed) for k_ in range(5)]
         ctasks += [('SweepMatchDecoder', 'Toric3DCode', (3, 3, 3), tier, seed), ('SweepMatchDecoder', 'Toric3DCode', (3, 4, 3), tier, seed),
                    ('RotatedSweepMatchDecoder', 'RotatedPlanar3DCode', (3, 3, 3), tier, seed), ('RotatedSweepMatchDecoder', 'RotatedPlanar3DCode', (3, 4, 3), tier, seed)]
         with Pool(16) as pool:
@@ -389,6 +390,35 @@ def correct_task(task):
             code = build_code(cls, size, None, None)
             em = PauliErrorModel(1 / 3, 1 / 3, 1 / 3)
             rate = 0.1
+            if decname.startswith('UnionFindDecoder~clustered'):
+                part = decname.split('#')[1] if '#' in decname else '0'
+                # weight-t errors (t = 4 on the 9x9 torus) whose qubits lie close together: several small clusters that meet while growing
+                decname = 'UnionFindDecoder'
+                dec = make_decoder(decname, code, em, rate)
+                n = code.n
+                d = int(code.d)
+                t = (d - 1) // 2
+                rec['d'], rec['t'] = d, t
+                rng = random.Random('%s/%s/%d/clustered/%s' % (cls, size, seed, part))
+                qc = code.qubit_coordinates
+                for _ in range(1500 if tier == 'quick' else 15000):
+                    cx, cy = rng.randrange(2 * size[0]), rng.randrange(2 * size[1])
+                    near = [i for i, (x_, y_) in enumerate(qc) if min((x_ - cx) % (2 * size[0]), (cx - x_) % (2 * size[0])) <= 6
+                            and min((y_ - cy) % (2 * size[1]), (cy - y_) % (2 * size[1])) <= 3]
+                    supp = rng.sample(near, t)
+                    half = rng.choice([0, n])
+                    e = np.zeros(2 * n, dtype='uint8')
+                    for q in supp:
+                        e[half + q] = 1
+                    try:
+                        c = np.asarray(dec.decode(code.measure_syndrome(e))) % 2
+                        ok = bool(code.is_success((e + c) % 2))
+                    except Exception as ex_:
+                        c, ok = np.zeros(2 * n, dtype='uint8'), False
+                    rec['n_errors'] += 1
+                    if not ok and len(rec['fails']) < 5:
+                        rec['fails'].append({'error': rows(e, n), 'correction': rows(c, n)})
+                return rec
             if '@' in decname:          # the same decoder built for a high error rate (marginals still below 1/2)
                 decname, rate = decname.split('@')[0], float(decname.split('@')[1])
             dec = make_decoder(decname, code, em, rate)
